@@ -6,6 +6,7 @@ prefix, unwritable targets, injected EIO/ENOSPC at every I/O step through strace
 unreadable paths for the path-taking entry points."""
 import os, re, shutil, struct, subprocess
 from .. import faults, seeds
+from .. import core
 from ..core import digest, build
 from ..fmt import zipatch as zp
 
@@ -205,6 +206,9 @@ def unwritable_targets(ctx, rng):
         "H": [dict(op="T", platform=0), dict(op="H", fk=b"D", hk=b"V", main=0, sub=0, fid=0, data=rng.randbytes(1024)), dict(op="EOF")],
         "FA": [dict(op="T", platform=0), dict(op="FA", path=dat, offset=0, chunks=[(d, False)]), dict(op="EOF")],
         "D": [dict(op="T", platform=0), dict(op="D", main=0, sub=0, fid=0, off=1, n=2), dict(op="EOF")],
+        # the second write of a command: add-data that carries blocks to wipe behind its data (with and without data of its own)
+        "A+wipe": [dict(op="T", platform=0), dict(op="A", main=0, sub=0, fid=0, off=0, data=d, dele=3), dict(op="EOF")],
+        "A0+wipe": [dict(op="T", platform=0), dict(op="A", main=0, sub=0, fid=0, off=0, data=b"", dele=2), dict(op="EOF")],
     }
     # the same with an apply-option chunk in front (option 1 = "ignore missing", option 2 = "ignore old mismatch", value 0 / 1):
     # an option relaxes what it names, not every error
@@ -228,7 +232,11 @@ def unwritable_targets(ctx, rng):
                 os.makedirs(os.path.join(root, "sqpack", "ffxiv"))
                 big = 3_000_000  # x128 bytes = 384 MB, above the worker's RLIMIT_FSIZE of 256 MiB
                 base = kind.split("+")[0]
-                if base in ("A", "E"):
+                if base in ("A+wipe", "A0+wipe"):
+                    # the data ends exactly at the size limit, the wipe behind it lies beyond
+                    lim = core.RLIMIT_FSIZE_BYTES // 128
+                    these = [dict(o, off=lim - len(o["data"]) // 128) if o["op"] == "A" else o for o in ops]
+                elif base in ("A", "E"):
                     these = [dict(o, off=big) if o["op"] == base else o for o in ops]
                 elif base == "FA":
                     these = [dict(o, offset=big * 128) if o["op"] == "FA" else o for o in ops]
